@@ -220,6 +220,53 @@ theorem addrLe_total (a b : Addr) : (addrLe a b || addrLe b a) = true := by
   simp only [addrLe, Bool.or_eq_true, decide_eq_true_eq]
   exact String.le_total a b
 
+theorem perm_insertAddr (a : Addr) (l : List Addr) : (insertAddr a l).Perm (a :: l) := by
+  induction l with
+  | nil => exact List.Perm.refl _
+  | cons b t ih =>
+    unfold insertAddr
+    split
+    · exact List.Perm.refl _
+    · exact (List.Perm.cons b ih).trans (List.Perm.swap a b t)
+
+theorem perm_sortAddrs (l : List Addr) : (sortAddrs l).Perm l := by
+  induction l with
+  | nil => exact List.Perm.refl _
+  | cons a t ih => exact (perm_insertAddr a _).trans (List.Perm.cons a ih)
+
+theorem sorted_insertAddr (a : Addr) (l : List Addr) (h : l.Pairwise (fun x y => addrLe x y = true)) :
+    (insertAddr a l).Pairwise (fun x y => addrLe x y = true) := by
+  induction l with
+  | nil => simp [insertAddr]
+  | cons b t ih =>
+    unfold insertAddr
+    have hb := List.pairwise_cons.mp h
+    by_cases hab : addrLe a b = true
+    · simp only [hab, if_true]
+      refine List.pairwise_cons.mpr ⟨?_, h⟩
+      intro y hy
+      rcases List.mem_cons.mp hy with rfl | hy
+      · exact hab
+      · exact addrLe_trans _ _ _ hab (hb.1 y hy)
+    · simp only [hab]
+      have hba : addrLe b a = true := by
+        have := addrLe_total a b
+        simp only [Bool.or_eq_true] at this
+        rcases this with h1 | h1
+        · exact absurd h1 hab
+        · exact h1
+      refine List.pairwise_cons.mpr ⟨?_, ih hb.2⟩
+      intro y hy
+      have := (perm_insertAddr a t).mem_iff.mp hy
+      rcases List.mem_cons.mp this with rfl | hy'
+      · exact hba
+      · exact hb.1 y hy'
+
+theorem sorted_sortAddrs (l : List Addr) : (sortAddrs l).Pairwise (fun x y => addrLe x y = true) := by
+  induction l with
+  | nil => simp [sortAddrs]
+  | cons a t ih => exact sorted_insertAddr a _ ih
+
 theorem createRecordSuffix_perm {l₁ l₂ : List Addr} (h : l₁.Perm l₂) :
     createRecordSuffix l₁ = createRecordSuffix l₂ := by
   unfold createRecordSuffix
@@ -227,21 +274,17 @@ theorem createRecordSuffix_perm {l₁ l₂ : List Addr} (h : l₁.Perm l₂) :
   · intro a b _ _ hab hba
     simp only [addrLe, decide_eq_true_eq] at hab hba
     exact String.le_antisymm hab hba
-  · exact List.pairwise_mergeSort addrLe_trans addrLe_total l₁
-  · exact List.pairwise_mergeSort addrLe_trans addrLe_total l₂
-  · exact ((List.mergeSort_perm l₁ addrLe).trans h).trans (List.mergeSort_perm l₂ addrLe).symm
+  · exact sorted_sortAddrs l₁
+  · exact sorted_sortAddrs l₂
+  · exact ((perm_sortAddrs l₁).trans h).trans (perm_sortAddrs l₂).symm
 
-@[simp] theorem createRecordSuffix_length (l : List Addr) : (createRecordSuffix l).length = l.length := by
-  unfold createRecordSuffix
-  exact List.length_mergeSort l
+@[simp] theorem createRecordSuffix_length (l : List Addr) : (createRecordSuffix l).length = l.length :=
+  (perm_sortAddrs l).length_eq
 
-@[simp] theorem createRecordSuffix_singleton (a : Addr) : createRecordSuffix [a] = [a] := by
-  unfold createRecordSuffix
-  exact List.mergeSort_singleton a
+@[simp] theorem createRecordSuffix_singleton (a : Addr) : createRecordSuffix [a] = [a] := rfl
 
-theorem mem_createRecordSuffix {l : List Addr} {a : Addr} : a ∈ createRecordSuffix l ↔ a ∈ l := by
-  unfold createRecordSuffix
-  exact List.mem_mergeSort
+theorem mem_createRecordSuffix {l : List Addr} {a : Addr} : a ∈ createRecordSuffix l ↔ a ∈ l :=
+  (perm_sortAddrs l).mem_iff
 
 /-- the two halves `findAddresses` returns are a permutation of the input -/
 theorem findAddresses_perm (all toFind : List Addr) :
